@@ -523,6 +523,15 @@ class RealEncoder(AbstractItemEncoder):
             raise error.PyAsn1Error('Prohibited Real base %s' % b)
 
 
+def holdsOpenTypeBlob(wrapType, component):
+    # An open type component needs no wrapping only when it already is a
+    # value of the wrapping type (e.g. ANY carrying a ready-made encoding).
+    # A typed value which merely happens to carry the same tags must still
+    # be wrapped.
+    return (getattr(component, 'typeId', None) == wrapType.typeId and
+            wrapType.isSameTypeWith(component))
+
+
 class SequenceEncoder(AbstractItemEncoder):
     omitEmptyOptionals = False
 
@@ -605,7 +614,7 @@ class SequenceEncoder(AbstractItemEncoder):
                     else:
                         chunk = encodeFun(component, asn1Spec, **options)
 
-                        if wrapType.isSameTypeWith(component):
+                        if holdsOpenTypeBlob(wrapType, component):
                             substrate += chunk
 
                         else:
@@ -656,7 +665,7 @@ class SequenceEncoder(AbstractItemEncoder):
                     else:
                         chunk = encodeFun(component, componentSpec, **options)
 
-                        if componentSpec.isSameTypeWith(component):
+                        if holdsOpenTypeBlob(componentSpec, component):
                             substrate += chunk
 
                         else:
@@ -690,7 +699,7 @@ class SequenceOfEncoder(AbstractItemEncoder):
             chunk = encodeFun(component, asn1Spec, **options)
 
             if (wrapType is not None and
-                    not wrapType.isSameTypeWith(component)):
+                    not holdsOpenTypeBlob(wrapType, component)):
                 # wrap encoded value with wrapper container (e.g. ANY)
                 chunk = encodeFun(chunk, wrapType, **options)
 
